@@ -104,6 +104,15 @@ def _promises(repo, col):
                           f"`{unparse(c)[:90]}` passes `{bad[0].arg if bad else ''}=True`: index arrays of shared parameters contain padding and "
                           f"duplicates; with this promise the backward pass counts them more than once (gradient of the smaller groups "
                           f"is too large) although the forward value is unchanged", node=c)
+    pad_sentinel(repo, col, R)
+    col.info["scatters_examined"] = n
+    if n < 5:
+        raise AnalysisError(f"only {n} scatters found on the simulation path")
+
+
+def pad_sentinel(repo, col, R):
+    """make_trainable pads groups of unequal size with the sentinel -1 (shared with C10 / C19: the readers drop negative entries; a
+    pad of 0 -- numpy's default -- is a real row, which is then overwritten with the shared value)."""
     mt = repo.method("Module", "make_trainable")
     pads = [c for c in ast.walk(mt.node) if isinstance(c, ast.Call) and isinstance(c.func, ast.Attribute) and c.func.attr == "pad"]
     if not pads:
@@ -115,9 +124,6 @@ def _promises(repo, col):
         col.check(ok, R, mt, "make_trainable pads groups of unequal size with the sentinel -1", "np.pad(..., constant_values=-1)",
                   f"`{unparse(c)[:80]}` pads with {('mode=' + unparse(mode)) if mode is not None else ('constant_values=' + (unparse(cv) if cv is not None else '0'))}: "
                   f"a padded entry that is a real row index is written (and differentiated) again instead of being dropped", node=c)
-    col.info["scatters_examined"] = n
-    if n < 5:
-        raise AnalysisError(f"only {n} scatters found on the simulation path")
 
 
 def _taylor(repo, col):
